@@ -135,6 +135,8 @@ class CkInterp(Interp):
             return OptionVal(False, None)
         if fname in ('IntVector::<u64>::iter', 'IntVector::iter'):
             return SeqIter(self.read_ref(a[0]).vals)
+        if fname in ('<IntVector<u64> as Clone>::clone', '<IntVector as Clone>::clone', '<FixedBitSet as Clone>::clone'):
+            return core.copyval(self.read_ref(a[0]))
         if fname == '<B as PartialEq>::eq':
             return z3.BoolVal(True)
         if fname == '<Vec<(usize, u64)> as Deref>::deref':
@@ -302,7 +304,15 @@ def run_single(fns, op, bs, nb, kicks, timeout_ms=600000):
         if r == z3.sat and tag not in out['failed']:
             out['failed'].append(tag)
             if True:
-                m = s.model()
+                s.push()
+                s.add(n == N)
+                if tag.startswith('insert_err') and s.check() == z3.sat:
+                    m = s.model()
+                    s.pop()
+                else:
+                    s.pop()
+                    s.check()
+                    m = s.model()
                 out['cexs'][tag] = {'tag': tag, 'op': op, 'bs': bs, 'nb': nb, 'kicks': kicks, 'slots': model_table(m, slots), 'n': m.eval(n, model_completion=True).as_long(),
                               'f': m.eval(f, model_completion=True).as_long(), 'i1': m.eval(i1, model_completion=True).as_long(),
                               'g': m.eval(g, model_completion=True).as_long(), 'gi': m.eval(gi, model_completion=True).as_long(),
@@ -384,7 +394,11 @@ def run_union(fns, bs, nb, kicks, b_mask=None, timeout_ms=900000):
     fn = I.find(r'cuckoofilter::<impl.*>::union$')
     g = z3.BitVec('g', 64)
     gi = z3.BitVec('gi', 64)
-    extra = [sb[i] == 0 for i in range(N) if b_mask is not None and i not in b_mask]
+    # b_mask: None = arbitrary B; int bitmask = exactly these slots of B are occupied (case split for parallel units)
+    if b_mask is None:
+        extra = []
+    else:
+        extra = [(sb[i] != 0) if (b_mask >> i) & 1 else (sb[i] == 0) for i in range(N)]
     pre = z3.And(extra + [na == nz(sa), nb_ == nz(sb), g != 0, z3.ULT(gi, nb), z3.ULT(HASHF(g), nb), z3.And([z3.ULT(HASHF(v), nb) for v in sa + sb])])
     res = I.run(fn, [Ref((('local', world, 'self'), [])), Ref((('local', world, 'other'), []))], z3.And(extra) if extra else z3.BoolVal(True))
     symex_s = time.time() - t0
@@ -397,7 +411,16 @@ def run_union(fns, bs, nb, kicks, b_mask=None, timeout_ms=900000):
             return
         out['failed'].append(tag)
         if True:
-            m = s.model()
+            # prefer a counterexample that fails for every eviction bound (more elements than slots)
+            s.push()
+            s.add(z3.UGT(na + nb_, N))
+            if s.check() == z3.sat:
+                m = s.model()
+                s.pop()
+            else:
+                s.pop()
+                s.check()
+                m = s.model()
             out['cexs'][tag] = {'tag': tag, 'op': 'union', 'bs': bs, 'nb': nb, 'kicks': kicks, 'slots': model_table(m, sa), 'slots_b': model_table(m, sb),
                           'n': m.eval(na, model_completion=True).as_long(), 'n_b': m.eval(nb_, model_completion=True).as_long(),
                           'g': m.eval(g, model_completion=True).as_long(), 'gi': m.eval(gi, model_completion=True).as_long(),
